@@ -415,6 +415,13 @@ class LTop(Component):
       s.regs = [LReg() for _ in range(n)]
       s.w = Wire(8); s.w //= s.in_
       s.w = 0                       # a typo for  s.w //= 0
+    elif how in ("list-overwritten-with-wire", "wire-overwritten-with-list", "list-overwritten-with-list", "wire-overwritten-with-wire"):
+      # a field that holds hardware (in use: connected) is assigned a SECOND time, with hardware of another shape
+      s.regs = [LReg() for _ in range(n)]
+      if how.startswith("list"): s.tmp = [Wire(8) for _ in range(1 + n % 2)]; s.tmp[0] //= s.in_
+      else: s.tmp = Wire(8); s.tmp //= s.in_
+      if how.endswith("wire"): s.tmp = Wire(8)
+      else: s.tmp = [Wire(8) for _ in range(2)]
     elif how in ("insert-then-plus-equal", "reverse-then-plus-equal", "pop-then-plus-equal"):
       # the list is changed IN PLACE after it was assigned, then handed over again with +=
       s.regs = [LReg() for _ in range(n)]
@@ -463,7 +470,8 @@ def run_listbuild_case(sh, case):
   how = rng.choice(["assign-complete", "plus-equal", "plus-equal", "plus-equal-wires", "append-after", "setitem-after", "append-spare", "setitem-spare", "overwrite-with-int",
                     "insert-then-plus-equal", "reverse-then-plus-equal", "pop-then-plus-equal",
                     "reverse-only", "del-first-only", "swap-only",
-                    "grid-reverse-row1", "grid-swap-rows", "grid-reverse-last-row-3d", "grid-untouched"])
+                    "grid-reverse-row1", "grid-swap-rows", "grid-reverse-last-row-3d", "grid-untouched",
+                    "list-overwritten-with-wire", "wire-overwritten-with-list", "list-overwritten-with-list", "wire-overwritten-with-wire"])
   n = rng.randrange(2, 6)
   mod = G.load_source(LISTBUILD_SRC, "c14lb")
   try:
@@ -688,7 +696,7 @@ def run_shard(sh):
     if sh.only is None: run_replace_names_case(sh, sh.idx * 100 + case)
   for case in range(4):
     if sh.only is None: run_adapter_case(sh, case)
-  for case in range(8 if sh.tier == "quick" else 50):
+  for case in range(12 if sh.tier == "quick" else 60):
     if sh.only is None: run_listbuild_case(sh, sh.idx * 100 + case)
   for case in range(sh.params["cases"]):
     if sh.only is not None and str(case) != str(sh.only).strip('"'):
